@@ -1,7 +1,7 @@
 CONSTANTS
   N = 4
-  WeightSet = {0, 1, 2, 3, 5, 8, 200}
-  MaxPicks = 26
+  WeightSet = {1, 2, 3, 5, 8}
+  MaxPicks = 14
   Defects = {}
 SPECIFICATION Spec
 INVARIANTS LagBound RoundExact EmitCase
